@@ -88,6 +88,7 @@ type explorer struct {
 	traces   map[uint64]bool
 	visited  map[uint64]bool
 	stop     bool
+	probe    []string // results of the post-probe of the last execution
 }
 
 // runOnce executes the scenario under the schedule prefix.
@@ -101,8 +102,25 @@ func (e *explorer) runOnce(prefix []int) (*sched.Exec, []string, string) {
 	}
 	x := sched.Run(prefix, fs)
 	obs := ""
+	e.probe = nil
 	if !x.Deadlock && !x.Horizon {
 		obs = env.Observe()
+		// post-probe: after the concurrent phase the same operations, run once more one after the
+		// other, must still give the sequential results (an interleaving may leave shared state
+		// behind that only a later operation exposes)
+		if x.Switches > 0 {
+			for i := range bodies {
+				i := i
+				e.probe = append(e.probe, func() (res string) {
+					defer func() {
+						if p := recover(); p != nil {
+							res = fmt.Sprintf("PANIC: %v", p)
+						}
+					}()
+					return bodies[i]()
+				}())
+			}
+		}
 	}
 	return x, results, obs
 }
@@ -167,6 +185,12 @@ func (e *explorer) check(x *sched.Exec, results []string, obs string, prefix []i
 	}
 	if obs != e.wantObs {
 		e.violation("shared-object-changed", x, obs, e.wantObs)
+	}
+	for i := range e.probe {
+		if e.probe[i] != e.want[i] {
+			e.violation("later-operation-differs-after-interleaving", x, fmt.Sprintf("%s repeated sequentially after the concurrent phase: %s", scen.Ops[e.sc.Ops[i]].Name, e.probe[i]), e.want[i])
+			return
+		}
 	}
 	for i, p := range x.Points {
 		if p.RunningEnabled && p.Chosen != 0 && i > 0 {
@@ -428,7 +452,7 @@ func parent(tier string) int {
 		s := all[len(all)/2]
 		r.Sample(map[string]any{"scenario": s.Scenario, "preemption_bound": s.Bound, "schedules": s.Executions, "max_points": s.MaxPoints, "distinct_outcomes": s.Outcomes})
 	}
-	r.Set("rule", "every schedule of every scenario up to the stated preemption bound (iterative context bounding; switches at a thread's end are free), executed on the real code instrumented with a scheduling point before every statement of the six library packages; scenarios: every unordered pair of the 14-operation catalogue incl. a||a, with a shared decoded receiver and with distinct receivers, plus 3-thread scenarios; oracle per execution: every operation's result equals the sequential result, shared objects' observables unchanged, no panic, no deadlock; determinism obligations: the empty schedule twice gives identical traces, every replayed prefix offers the recorded choices")
+	r.Set("rule", "every schedule of every scenario up to the stated preemption bound (iterative context bounding; switches at a thread's end are free), executed on the real code instrumented with a scheduling point before every statement of the six library packages; scenarios: every unordered pair of the 14-operation catalogue incl. a||a, with a shared decoded receiver and with distinct receivers, plus 3-thread scenarios; oracle per execution: every operation's result equals the sequential result, shared objects' observables unchanged, the same operations repeated sequentially after the concurrent phase still give the sequential results, no panic, no deadlock; determinism obligations: the empty schedule twice gives identical traces, every replayed prefix offers the recorded choices")
 	r.Assume("statement-level atomicity and sequentially consistent memory; code outside the six library packages (fmt, text/template, x/text, errs) runs atomically between two scheduling points; data races inside one statement are left to the separate free-running -race pass")
 	r.Assume("at most 3 goroutines; goroutines started by the library itself would not be controlled (the library starts none)")
 	return r.Finish()
